@@ -18,6 +18,8 @@ CORPUS = [
     ('$reduce([1,2,3], $reduce)', None), ('$filter([1], $filter)', None), ('$sort([1,2], $sort)', None), ('$each({"a":1}, $each)', None), ('$sift({"a":1}, $sift)', None),
     ('$single([1], $single)', None), ('$map($map, $map)', None), ('null.a', {'a': 1}), ('a.null', {'a': 1}), ('$$.$$.$$', {'a': 1}), ('**.**.**', {'a': {'b': [1, {'c': 2}]}}),
     ('$ ~> |$|{"self": $}|', {'a': 1}), ('$ ~> |a|{"up": $$}|', {'a': {'b': 1}}),
+    ('$fromMillis(0, "[ ]")', None), ('$fromMillis(0, "[Y]-[\t]")', None), ('$toMillis("2020", "[ ]")', None), ('$now("[  ]")', None), ('$fromMillis(0, "[Y,*-64]")', None), ('$fromMillis(0, "[")', None),
+    ('(true ? $uppercase : $lowercase)()', 'x'), ('a.((b ? $substringAfter : $substringBefore)("-"))', {'a': 'p-q', 'b': True}),
     ('*[0][0][0]', {'a': [[1]]}), ('$[0][0]', [[1]]), ('[[[]]][0][0][0]', None), ('{}[0]', None), ('{}.a.b.c', None), ('$keys({})', None), ('$merge([])', None), ('$spread([])', None),
 ]
 
